@@ -47,6 +47,11 @@
                              position and cache, has TERMINATE set, DIRTY clear, no code;
    C20_abnormal_end_then_blocked  and every later accepted request is blocked: cont = false, OK,
                              empty output, nothing logged, store unchanged (C06_blocked_until_cleared).
+   Note on "stays blocked": the strict form needs DIRTY clear in the stored session, which
+   C20_abnormal_end_request establishes when the request that set TERMINATE was flushed.  If that
+   request FAILED in Exec after TERMINATE had been set, the session is saved with DIRTY and the next
+   request renders the page once (finding K-C06-dirty, props/C06.v: C06_blocked_refuted_dirty,
+   C06_blocked_request_weak, C06_terminated_stays_blocked).
    FALSE with an entry function (K-C20-first): C20_terminated_refuted_first - an entry function that
    sets TERMINATE makes its request report stop with its text, the session is not saved, and the
    next request is served normally; a session terminated otherwise outputs a stale value when
@@ -135,13 +140,7 @@ Theorem C20_restart_runs_root : forall fuel rs sep lang root v x code,
   = run fuel rs sep (pre_lang lang (v_st v)) (x :: code) (at_root rs sep root v)
   /\ s_path (v_st (at_root rs sep root v)) = [root] /\ s_idx (v_st (at_root rs sep root v)) = 0
   /\ v_ca (at_root rs sep root v) = cache_push (v_ca v).
-Proof.
-  intros fuel rs sep lang root v x code H1 H2 H3 H4 H5.
-  exact (conj (run_move_root fuel rs sep lang root v x code H1 H2 H3 H4 H5)
-              (conj (proj1 (at_root_facts rs sep root v))
-                    (conj (proj1 (proj2 (at_root_facts rs sep root v)))
-                          (proj1 (proj2 (proj2 (at_root_facts rs sep root v))))))).
-Qed.
+Proof. exact run_move_root_full. Qed.
 
 Theorem C20_restart_halting_root : forall fuel rs c st ca w lg input rest,
   c_first c = None -> accepted_b input = true -> s_code st = [] -> s_path st = [] ->
@@ -218,22 +217,10 @@ Theorem C20_terminated_refuted_first :
         (* instructions ran during the second request *)
         /\ existsb (fun e => match e with EvInstr op => op =? op_INCMP | _ => false end)
                    (firstn (List.length (pw_log p2) - List.length (pw_log p1)) (pw_log p2)) = true).
-Proof.
-  exists (app_rsrc app_ft), cfg_ft, (fst (requests 100 (app_rsrc app_ft) cfg_ft pw0 [[]])), (s2b "1"), (s2b "0").
-  vm_compute. repeat split; try reflexivity; discriminate.
-Qed.
+Proof. exact terminated_refuted_first. Qed.
 
 (* ---- witnesses -------------------------------------------------------------------------------------- *)
 (* corpus "graceful-end", third request ("1" at root/foo): every hypothesis of C20_graceful_end holds *)
-Definition g_st := store_st p_graceful.
-Definition g_ca := store_ca p_graceful.
-Definition g_run :=
-  run 100 rs_graceful (c_sep cfg_graceful) (s_lang g_st) (prep_code cfg_graceful g_st)
-      (mkVm (set_code (prep_state cfg_graceful g_st (s2b "1")) []) g_ca
-            (new_vm_page (c_out cfg_graceful) (c_sep cfg_graceful)) (pw_w p_graceful) (pw_log p_graceful) false).
-Definition g_v1 := fst (fst g_run).
-Definition g_render := vm_render 100 rs_graceful (c_sep cfg_graceful) (s_lang (v_st g_v1)) (exiting_vm g_v1).
-Definition g_v' := fst g_render.
 
 Example C20_graceful_nonvacuous :
   c_first cfg_graceful = None /\ pw_store p_graceful = Some (g_st, g_ca)
@@ -279,12 +266,6 @@ Proof.
 Qed.
 
 (* corpus "abnormal-end", second request ("1" at root): foo's code ends after LOAD, READIN clear *)
-Definition a_st := store_st p_abn.
-Definition a_ca := store_ca p_abn.
-Definition a_run :=
-  run 100 rs_abn (c_sep cfg_term) (s_lang a_st) (prep_code cfg_term a_st)
-      (mkVm (set_code (prep_state cfg_term a_st (s2b "1")) []) a_ca
-            (new_vm_page (c_out cfg_term) (c_sep cfg_term)) (pw_w p_abn) (pw_log p_abn) false).
 Example C20_abnormal_nonvacuous :
   c_first cfg_term = None /\ pw_store p_abn = Some (a_st, a_ca)
   /\ accepted_b (s2b "1") = true /\ reset_req cfg_term (s2b "1") = false /\ stale a_st = false
@@ -300,7 +281,6 @@ Example C20_abnormal_nonvacuous :
 Proof. vm_compute. repeat split; reflexivity. Qed.
 
 (* the exit-size check: same session, OutputSize 8 < len "the end" + len " bye" *)
-Definition cfg_graceful_small : config := mkCfg 8 [] 2 100 [] [] false None.
 Example C20_exit_overflow_nonvacuous :
   let '(p3, r3) := request_persisted 100 rs_graceful cfg_graceful_small p_graceful (s2b "1") in
   r3 = mkResp false SOk [] (FErr EGen) /\ s_path (store_st p3) = [] /\ c_frames (store_ca p3) = [[]].
